@@ -200,6 +200,20 @@ CLAIMED["C17"] = {
     "technique": "Lean 4 theorems over a lock-trace model (case analysis per call site) + differential correspondence of lock traces + thread stress oracle",
 }
 
+CLAIMED["C18"] = {
+    "text": "Proof. Lean theorems over the exact fixed-point model of the overlay clock: set_frequency returns the reading at that "
+            "instant and the re-anchored clock reads exactly that value at that instant, for every old and new frequency "
+            "(frequency_change_continuous); step_clock returns the old reading plus the offset, exactly, and reads that afterwards, "
+            "whatever frequency is in force and however long ago the last adjustment was (step_exact); between adjustments the reading "
+            "is the underlying time plus a constant plus a correction that equals elapsed·ppm/10^6 to within (1 + 10^-6) units of "
+            "2^-32 ns (rate); there is one conversion map, which now() applies to the underlying clock's current time "
+            "(conversion_is_reading). The model is compared bit-exactly with the Rust OverlayClock on every returned time. One genuine "
+            "defect found by the oracle was repaired by a fix: commit (step_clock lost the accrued frequency correction and scaled the step).",
+    "note": "Trusted: Lean kernel; generators. The f64 ppm value enters the code only through its conversion to I96F32; the stream "
+            "drives values for which that conversion is exact.",
+    "technique": "Lean 4 theorems (exact integer arithmetic on the fixed-point bit patterns) + differential correspondence + independent exact-arithmetic oracle",
+}
+
 CLAIMED["C14"] = {
     "text": "Proof. Lean theorems: a completed peer exchange hands the filter exactly ((t4'-t1)-(t3'-t2))/2 (Spec.peerDelay, `fixed` "
             "division semantics), stamped t4', for every timestamp and correction value; a Pdelay_Resp or follow-up for the current "
